@@ -369,3 +369,24 @@ Proof.
     exists (Tok (b0 :: s')). split; [exact E3|]. split; [symmetry; exact E2|].
     intros [H|H]; [discriminate|]. rewrite E2. apply val_of_tok. exact H.
 Qed.
+
+(* ---- white space before the value (indentation, the blank after a colon) is skipped *)
+Definition skipb (b : byte) : bool := act_is (SenMaps.tab_valueMap b) SenMaps.A_skipChar.
+Lemma sen_read_skip ws : forall w, Forall (fun b => skipb b = true) ws -> sen_read (ws ++ w) = sen_read w.
+Proof.
+  induction ws as [|b ws IH]; intros w H; [reflexivity|].
+  inversion H as [|? ? Hb Hws]; subst. unfold sen_read, rinit in *. cbn [List.app rrun rs_mode].
+  unfold skipb in Hb. rewrite Hb. apply IH. exact Hws.
+Qed.
+
+Theorem sen_string_round_trip_ws html s ws t rest :
+  Forall (fun b => skipb b = true) ws ->
+  tok_end (SenMaps.tab_tokenMap t) = true ->
+  sen_quoted html s = true \/ sign_leading s = false ->
+  exists o, sen_read (ws ++ sen_string html s ++ t :: rest) = Some (o, t :: rest) /\
+            key_of o = sanitize s /\
+            (sen_quoted html s = true \/ reserved s = false -> val_of o = SvStr (sanitize s)).
+Proof. intros Hws Ht Hs. rewrite (sen_read_skip ws _ Hws). apply sen_string_round_trip; assumption. Qed.
+
+Example skipb_space_tab : skipb x20 = true /\ skipb x09 = true /\ skipb x0d = true /\ skipb x2c = true.
+Proof. vm_compute. repeat split; reflexivity. Qed.
